@@ -263,6 +263,13 @@ def run(ctx):
     # history corpus: compile, add a gate that slides into an already compiled layer, compile again
     do(ctx, 'recompile', ['CliffordCircuit', 3, [[0, [[0], [0, [[1, 0], 0]]]]], [[0, [[2], [0, [[1, 1], 0]]]]], [[[0, 0, 0, 0, 1, 0], 2], [[0, 1, 0, 0, 0, 1], 1]], 2, 'take', 'forward'], nontrivial='rc0', sample=True)
     ctx.res.exhaustive = True
+    # LARGE registers: byte, word and cache-line boundaries of every packed or vectorised representation (8, 9, 16, 17, 33, 64, 65 qubits); model correspondence only
+    for N in gen.BIG[:5]:
+        prog = rprog(rng, ctx.model, N, rng.randint(3, 8))
+        l = gen.rplist(rng, N, 3)
+        for mode in (0, 2):
+            do(ctx, 'prog_corr', ['CliffordCircuit', N, prog, l, mode, 'orig'], nontrivial=('big', N, mode))
+        do(ctx, 'prog_seq', ['CliffordCircuit', N, prog, gen.rtableau(rng, ctx.model, N), 2, 'orig', 'state'], nontrivial=('bigs', N))
     for it in range(int(260 * B)):
         N = rng.randint(1, 5)
         L = rng.randint(1, 12 if ctx.tier == 'quick' else 40)
